@@ -78,8 +78,8 @@ class PythonConstructRenderer:
 
         # Add __all__ export
         exports = [alias_name]
-        if discriminator:
-            # Also export the discriminator metadata class
+        if discriminator and target_type.startswith("Union["):
+            # Also export the discriminator metadata class (only emitted for real unions, see below)
             exports.append(f"{alias_name}Discriminator")
         writer.write_line(f"__all__ = {exports!r}")
         writer.write_line("")  # Add a blank line for separation
